@@ -43,9 +43,18 @@ DNA_FFS = ["AMBER", "CHARMM", "TYL06"]
 # ------------------------------------------------------------------ success side
 @st.composite
 def success_case(draw):
-    kind = draw(st.sampled_from(["protein", "protein", "protein", "na", "mixed"]))
+    kind = draw(st.sampled_from(["protein", "protein", "protein", "na", "mixed", "big"]))
     desc = dict(chains=[])
     ffs = list(PROTEIN_FFS)
+    if kind == "big":
+        # 4-30 chains, one long chain, protein + strands: complete standard residues
+        d = draw(e2e.big_structure(nmin=2, variants=0, oxt=True, hyd=draw(st.sampled_from(["none", "none", "all"]))))
+        for w_ in d.get("waters", []):
+            if w_.get("h") == "H2":
+                w_["h"] = "both"
+        desc.update(d)
+        if d.get("na"):
+            ffs = DNA_FFS if any(x["dna"] for x in d["na"]) else RNA_FFS
     if kind in ("protein", "mixed"):
         d = draw(e2e.structure(max_chains=3, nmax=6, nmin=2, variants=0, oxt=True, contact=draw(st.booleans()),
                                hyd=draw(st.sampled_from(["none", "none", "all"]))))  # fmt: skip
